@@ -75,8 +75,9 @@ struct Tier {
 fn tier_for(id: &str) -> Tier {
     match id {
         "C14" => Tier { quick_runs: 20_000, thorough_budget_s: 300.0, thorough_max_runs: 1_000_000_000 },
-        "C12" => Tier { quick_runs: 300_000, thorough_budget_s: 300.0, thorough_max_runs: 2_000_000_000 },
-        _ => Tier { quick_runs: 100_000, thorough_budget_s: 300.0, thorough_max_runs: 1_000_000_000 },
+        "C12" => Tier { quick_runs: 1_000_000, thorough_budget_s: 300.0, thorough_max_runs: 2_000_000_000 },
+        "C15" => Tier { quick_runs: 2_000_000, thorough_budget_s: 300.0, thorough_max_runs: 2_000_000_000 },
+        _ => Tier { quick_runs: 1_500_000, thorough_budget_s: 300.0, thorough_max_runs: 2_000_000_000 },
     }
 }
 
@@ -145,7 +146,7 @@ fn main() {
             let tier = args.get(3).cloned().unwrap_or_else(|| "quick".into());
             let cfg = batch_cfg(&id, &tier, &args);
             if id == "C14" {
-                let (corpus, pristine) = if tier == "thorough" { (8000, 64) } else { (1500, 16) };
+                let (corpus, pristine) = if tier == "thorough" { (30000, 64) } else { (6000, 16) };
                 std::process::exit(c14run::run_c14(&cfg, corpus, pristine));
             }
             dispatch!(id.as_str(), c => run_generic(c, &cfg, json!({})), {
@@ -176,6 +177,10 @@ fn main() {
             args.get(2).map(|s| s.as_str()).unwrap_or(""),
             args.get(3).map(|s| s.as_str()).unwrap_or(""),
         ),
+        Some("dump-corpus") => {
+            dump_corpus(seed_from_env(), args.get(2).and_then(|s| s.parse().ok()).unwrap_or(1500));
+            0
+        }
         Some("replay") => {
             let path = args.get(2).cloned().unwrap_or_default();
             let doc: Value = match std::fs::read_to_string(&path).ok().and_then(|s| serde_json::from_str(&s).ok()) {
@@ -200,4 +205,11 @@ fn main() {
         }
     };
     std::process::exit(code);
+}
+
+#[allow(dead_code)]
+fn dump_corpus(seed: u64, n: usize) {
+    for (i, c) in c14::gen_corpus(seed, n).iter().enumerate() {
+        println!("{i} {}", serde_json::to_string(c).unwrap());
+    }
 }
